@@ -131,6 +131,8 @@ struct JSON {
                 }
 
                 value.Reset();
+                offset = length;
+                return value;
             }
 
             ++offset;
@@ -168,6 +170,8 @@ struct JSON {
                 }
 
                 value.Reset();
+                offset = length;
+                return value;
             }
 
             ++offset;
